@@ -1,5 +1,6 @@
 import Insim.Drv.Util
 import Insim.Model.Vehicle
+import Insim.Model.Reader
 import Insim.Gen.Vehicle
 namespace Insim.Drv.C13
 open Insim Insim.Drv Insim.Vehicle
@@ -25,6 +26,14 @@ def vehLine (b : Bytes) : String :=
 
 def handle (ws : List String) : Option String :=
   match ws with
+  | ["veh.seg", h, per] => match parseHex h, per.toNat? with
+    | some b, some per =>
+      (match Reader.decodeFrom 4 (decode Gen.Vehicle.readRows) (Reader.chunks per b) with
+       | (.ok v, some rest) => some (s!"ok {vehToken v} at {b.length - rest.flatten.length}")
+       | (.ok v, none) => some (s!"ok {vehToken v} at -")
+       | (.err e, _) => some ("err " ++ e.toStr)
+       | (.panic, _) => some "panic")
+    | _, _ => some "bad-op"
   | ["veh", h] => match parseHex h with
     | some b => some (vehLine b)
     | none => some "bad-op"
